@@ -106,6 +106,53 @@ CHECKS = {
         'Trusts: the docstring predicate in mc/props/C16.py and mc/refsem.py for typed attributes; mappings with a '
         'duplicated attribute name are outside the stated domain.',
         'DESIGN.md 3 C16'),
+    'C05': (
+        'exhaustive enumeration of all strings up to a length bound over two adversarial alphabets at 13 positions and of '
+        'a structured value catalogue; each value is dumped and re-loaded with the real functions',
+        'Every string of length <= 2/3 over a 20-character YAML-syntax alphabet and <= 3/4 over a 13-character number/'
+        'boolean look-alike alphabet, plus 170 fixed strings, is placed at 13 positions (top level, list item, dict key and '
+        'value, class attribute, extra attribute, Union member, Any, untyped, three string-like kinds); 61 structured '
+        'families cover floats incl. non-finite, ints, dates/datetimes, paths, enums with bool-like names, string-likes as '
+        'values and keys, nested classes, extras, hierarchies, default-value sweetening for every (default, value) pair, '
+        'four sweeten/savorize inverse pairs and every way of referencing one sub-object twice; load(dumps(v)) must be '
+        'structurally equal to v (nan-aware, class-exact, order-sensitive).',
+        'Trusts: structural equality of the generated classes (recorded constructor kwargs). Cross-kind numeric pairs '
+        '(1 vs 1.0) are skipped for default sweetening. Strings outside the alphabets/list are not covered.',
+        'DESIGN.md 3 C05'),
+    'C06': (
+        'exhaustive enumeration of the same value catalogue through both dump paths; each text is re-parsed with plain '
+        'PyYAML and compared with a reference projection; object graph snapshots before/after',
+        'For dumps_function and for the deprecated Dumper/add_to_dumper path: every catalogue value (strings at 7 '
+        'positions, 67 structured families incl. _yatiml_attributes, inherited sweeteners, OrderedDicts) is dumped; the '
+        'text must be one well-formed document whose parse events carry no tag, yaml.safe_load of it must equal the '
+        'reference projection (declaration order, extras, enum names, str() of string-likes and paths, own sweeteners), '
+        'a deep snapshot of the object graph must be unchanged and a second dump identical.',
+        'Trusts: the projection and the plain-data models of the declarative sweeteners in mc/values.py.',
+        'DESIGN.md 3 C06'),
+    'C07': (
+        'explicit-state BFS of the JSON emitter (every event sequence replayed on the real Dumper.emit against a reference '
+        'pushdown transducer) + exhaustive enumeration of all plain-data trees up to 5/6 nodes x indent x ensure_ascii '
+        'and of all short strings over a JSON-hostile alphabet',
+        'The emitter is driven with YAML events directly: all well-formed event sequences (nesting <= 4, <= 7/9 events) '
+        'are explored breadth-first with de-duplication on the stack of container states, each transition compared with '
+        'a 30-line reference transducer (compact text exactly, indented text modulo white space) and every complete '
+        'document validated. End to end, every plain-data tree with <= 4/6 nodes (9 leaf kinds) under all 10 indents x 2 '
+        'ensure_ascii settings (<= 5 nodes under two indents in quick), every string <= 2/3 over 14 hostile characters '
+        'as value and key, and the tree-shaped class values: strict RFC 8259 recogniser, JSON projection, ASCII and '
+        'white-space rules, and re-load for printable-BMP values.',
+        'Trusts: the strict JSON recogniser in mc/props/C07.py (cross-checked with json.loads), the reference transducer, '
+        'the projection. Dates are excluded from the re-load clause.',
+        'DESIGN.md 3 C07'),
+    'C12': (
+        'exhaustive enumeration of (case x source kind) and (case x option x sink kind) on real files, paths and streams',
+        'Every (model, document) pair of a catalogue subset plus 20 special texts (CRLF/CR line ends, BOM, non-ASCII, '
+        'block scalars, syntax errors) is loaded from a str, a Path, an open text file, an open binary file, StringIO '
+        'and BytesIO: equal values or the same error (type, message without source name/snippet, line/column). Every '
+        'catalogue value is dumped as YAML and as JSON under 6 option combinations to a file name, a Path, an open text '
+        'file and StringIO: the bytes written must decode to exactly the text of the dumps twin.',
+        'Trusts: PYTHONUTF8=1 for the default file encoding; error normalisation removes only the source name and '
+        'PyYAML\'s snippet.',
+        'DESIGN.md 3 C12'),
 }
 
 NOT_BUILT = {}
